@@ -1160,8 +1160,10 @@ impl<Sink: TokenSink> XmlTokenizer<Sink> {
         self.at_eof.set(true);
         let _ = self.run(&input);
 
+        // A sink may answer the last tag with `Script`; there is no more input to suspend
+        // for, so keep stepping until the end-of-file token has been emitted.
         loop {
-            if !matches!(self.eof_step(), ProcessResult::Continue) {
+            if matches!(self.eof_step(), ProcessResult::Done) {
                 break;
             }
         }
